@@ -9,7 +9,7 @@
    k-th entry of [script] (Full | Short n | Eintr; Full for ever afterwards);
    [read_all d cr s] calls ReadLineOrEOF(d, cr) until it returns false and collects the
    records; the result [Ok ...] says that no error and no fuel exhaustion occurred. *)
-From PP Require Import Reader.FilePieceDefs Reader.FilePieceProofs Sys.C03Proofs.
+From PP Require Import Reader.FilePieceDefs Reader.FilePieceProofs Sys.C03Proofs Sys.ToolShapesDefs Sys.ToolShapesProofs.
 Local Open Scope nat_scope.
 
 (* read() path (pipes, and what every decompressor feeds): all byte strings not starting
@@ -75,6 +75,26 @@ Theorem C02_identity_filter_tool :
   = Ok (unrecords 10%Z (records 10%Z true src)).
 Proof. exact C02_identity_filter_tool_proof. Qed.
 Print Assumptions C02_identity_filter_tool.
+
+(* the same tool with stdin a regular file handed over at any descriptor offset (mmap windows) ... *)
+Theorem C02_identity_filter_tool_file :
+  forall page min_buffer bcap file off rscript wscript,
+  1 <= page -> off <= length file -> no_err rscript = true -> no_err wscript = true ->
+  detect_magic (skipn off file) = false ->
+  line_filter_tool_file (fun _ => true) page (initial_cap page min_buffer) bcap file off rscript wscript
+  = Ok (unrecords 10%Z (records 10%Z true (skipn off file))).
+Proof. exact identity_filter_tool_file. Qed.
+Print Assumptions C02_identity_filter_tool_file.
+
+(* ... and with stdin a gz / bz2 / xz / multi-member stream, through the reader contract of C15
+   (the decompressing reader hands out the plain bytes in some chunking) *)
+Theorem C02_identity_filter_tool_stream :
+  forall page min_buffer bcap plain chunking wscript,
+  1 <= page -> no_err chunking = true -> no_err wscript = true ->
+  line_filter_tool_stream (fun _ => true) (initial_cap page min_buffer) bcap plain chunking wscript
+  = Ok (unrecords 10%Z (records 10%Z true plain)).
+Proof. exact identity_filter_tool_stream. Qed.
+Print Assumptions C02_identity_filter_tool_stream.
 
 (* non-vacuity: concrete data meeting the hypotheses, window of 2 bytes that has to double
    and to compact, short reads and an EINTR, CR before the delimiter, empty record,
